@@ -44,7 +44,7 @@ class BuildResult:
 
 
 _SUB_RE = re.compile(r"sub\s+(\S+)\s+`(.*?)`\s*=>\s*`(.*?)`\s*(x\d+|\*|\?)?\s*$")
-_HINT_RE = re.compile(r"hint\s+(before|after|start|loopstart|loopend)\s*(?:(\d+)\s*)?(?:`(.*)`)?\s*$")
+_HINT_RE = re.compile(r"hint\s+(before|after|start|loopstart|loopend)\s*(?:(\d+|last)\s*)?(?:`(.*)`)?\s*$")
 
 
 def _variant_filter(lines, variant):
@@ -266,6 +266,12 @@ def build(template_path, repo, variant="strict", inline=None):
                 # `loop k` or `loop k \`header text\``: with a text, the k-th loop's header must contain that token sequence,
                 # otherwise the invariants are NOT attached (lost anchor): a loop added or removed by a change shifts the
                 # ordinals, and invariants on the wrong loop would fail for no semantic reason
+                mi_ = re.match(r"loop\s+inner(?:\s+(\d+))?\s+`(.*)`\s*$", d2)
+                if mi_:
+                    # `loop inner [n] \`body text\``: the (n-th) INNERMOST loop whose body contains the token sequence, whatever
+                    # its keyword and header (robust against while <-> loop { if .. break } and for <-> while rewrites)
+                    cur = opts["loops"].setdefault(("i", int(mi_.group(1) or 1), mi_.group(2)), [])
+                    continue
                 mm_ = re.match(r"loop\s+@(\d+)\s+`(.*?)`(?:\s+has\s+`(.*)`)?\s*$", d2)
                 if mm_:
                     # `loop @n \`header text\``: the n-th loop WHOSE HEADER CONTAINS the text (robust against loops added
@@ -285,7 +291,8 @@ def build(template_path, repo, variant="strict", inline=None):
                 if not m:
                     raise ValueError("%s:%d: bad hint directive" % (o2[1], o2[2]))
                 cur = []
-                opts["hints"].append((m.group(1), int(m.group(2) or 1), m.group(3), cur, o2))
+                # ordinal `last`: the last line containing the anchor (robust against occurrences added in front of it)
+                opts["hints"].append((m.group(1), (-1 if m.group(2) == "last" else int(m.group(2) or 1)), m.group(3), cur, o2))
             else:
                 raise ValueError("%s:%d: unknown extract option %r" % (o2[1], o2[2], d2))
 
@@ -447,6 +454,20 @@ def build(template_path, repo, variant="strict", inline=None):
             opts["hints"] = [((("before", 1, "/*VX_LOOPEND_%d*/" % nth, content, o2)) if pos == "loopend" else (pos, nth, anchor, content, o2)) for (pos, nth, anchor, content, o2) in opts["hints"]]
             ins = {}
             for kord, content in opts["loops"].items():
+                if isinstance(kord, tuple) and kord[0] == "i":
+                    (_i, nth_, has_) = kord
+                    ht = [t.text for t in R.lex(has_) if t.kind not in ("ws", "lcomment", "bcomment")]
+                    spans_ = [(lo_, match_close(body, lo_)) for lo_ in loops]
+                    def _has(lo_, hi_):
+                        bt = [t.text for t in body[lo_:hi_] if t.kind not in ("ws", "lcomment", "bcomment")]
+                        return any(bt[q:q + len(ht)] == ht for q in range(len(bt) - len(ht) + 1))
+                    with_ = [(lo_, hi_) for (lo_, hi_) in spans_ if _has(lo_, hi_)]
+                    inner_ = [(lo_, hi_) for (lo_, hi_) in with_ if not any(lo_ < l2 and h2 < hi_ for (l2, h2) in with_)]
+                    if nth_ < 1 or nth_ > len(inner_):
+                        res.absent_loops.append("%s: innermost loop #%d containing `%s` not found (%d such loops)" % (where, nth_, has_, len(inner_)))
+                        continue
+                    ins[inner_[nth_ - 1][0]] = content
+                    continue
                 if isinstance(kord, tuple):
                     (_m, nth_, want_, has_) = kord
                     wt = [t.text for t in R.lex(want_) if t.kind not in ("ws", "lcomment", "bcomment")]
@@ -525,15 +546,20 @@ def build(template_path, repo, variant="strict", inline=None):
                     q0 = next(q for q, (t, o) in enumerate(body_lines) if "{" in t)
                     body_lines[q0 + 1:q0 + 1] = [("        " + ctext, corig) for (ctext, corig) in content]
                     continue
-                if anchor.startswith("^"):
-                    # `^text`: the whole (stripped) line equals text
-                    hits = [q for q, (t, o) in enumerate(body_lines) if t.strip() == anchor[1:] and not isinstance(o, tuple)]
-                else:
-                    hits = [q for q, (t, o) in enumerate(body_lines) if anchor in t and not isinstance(o, tuple)]
-                if len(hits) < nth:
+                hits = []
+                for anchor_ in anchor.split("` ||| `"):
+                    # `A ||| B`: alternative anchors (two shapes of the same statement); the first one that occurs is used
+                    if anchor_.startswith("^"):
+                        # `^text`: the whole (stripped) line equals text
+                        hits = [q for q, (t, o) in enumerate(body_lines) if t.strip() == anchor_[1:] and not isinstance(o, tuple)]
+                    else:
+                        hits = [q for q, (t, o) in enumerate(body_lines) if anchor_ in t and not isinstance(o, tuple)]
+                    if hits:
+                        break
+                if len(hits) < max(nth, 1):
                     res.lost.append("%s: hint anchor `%s` #%d not found" % (where, anchor, nth))
                     continue
-                q = hits[nth - 1]
+                q = hits[-1] if nth == -1 else hits[nth - 1]
                 at = q if pos == "before" else q + 1
                 body_lines[at:at] = [("        " + ctext, corig) for (ctext, corig) in content]
             do_canary = "canary" in variant.split("+") and bool(opts["spec"]) and not opts["nocanary"] and not opts["bodyless"]
